@@ -197,7 +197,7 @@ class Real:
                 self.cfg['assets'][i] = saved
             bobj.name = nm + '_base'
             smin, smax = a.get('scale_range', (sc, sc))
-            st, en = self.window(a)
+            st, en = self.window(dict(a, ws=a['fws'], we=a['fwe'], rws=a['fws'], rwe=a['fwe']))     # the wrapper's own window
             return eao.assets.ScaledAsset(name=nm, base_asset=bobj, start=st, end=en, wacc=self.asset_wacc(a), min_scale=float(smin),
                                           max_scale=float(smax), norm_scale=float(norm), fix_costs=float(fix) / self.r)
         N = self.nodeobjs
